@@ -125,6 +125,16 @@ func runLoopExits(c *core.Ctx, only map[string]bool) {
 			continue
 		}
 		loops := naturalLoops(fn)
+		if len(loops) == 0 {
+			// the loop may have been moved into a helper of the same package
+			sx.EachInstr(fn, func(in ssa.Instruction) {
+				if call, ok := in.(*ssa.Call); ok {
+					if g := sx.Callee(call); g != nil && g.Blocks != nil && load.FnPkg(g) != nil && load.FnPkg(g) == load.FnPkg(fn) && g != fn {
+						loops = append(loops, naturalLoops(g)...)
+					}
+				}
+			})
+		}
 		if lp.fn != "visitAllMulti" && len(loops) == 0 {
 			c.Undecided(name, fn.Pos(), "no loop found in a walker that is expected to iterate")
 			continue
